@@ -224,3 +224,19 @@ func WithoutCancel(parent context.Context) context.Context { return context.With
 func AfterFunc(ctx context.Context, f func()) (stop func() bool) {
 	panic("vctx.AfterFunc is not modelled")
 }
+
+type cancelFire struct{ c *vc }
+
+//go:norace
+func (d *cancelFire) Fire() { d.c.cancel(context.Canceled, nil) }
+
+// WithCancelAt is a harness helper: a cancellable context that is cancelled (as
+// if by its owner calling cancel) when the virtual clock reaches at.
+func WithCancelAt(parent context.Context, at int64) (context.Context, context.CancelFunc) {
+	ctx, cancel := WithCancel(parent)
+	c := ctx.(*vc)
+	if c.err == nil {
+		vsched.AddTimer(at, &cancelFire{c})
+	}
+	return ctx, cancel
+}
